@@ -99,7 +99,11 @@ structure Cfg where
   update : Option Bool := none
 deriving Repr, DecidableEq
 
-/-- `constructFilename` -/
+/-- `escapeFormat`: `%` ↦ `%%`, so that the text stands for itself inside a `fmt` format string -/
+def escapeFormat (s : Text) : Text := replaceByte s 37 [37, 37]
+
+/-- `constructFilename`; a standalone name is a format string for the ordinal (`_%d`), everything
+    else in it is escaped -/
 def constructFilename (c : Cfg) (caller tName : Text) (standalone : Bool) : Text :=
   let filename :=
     if c.filename = [] then
@@ -107,13 +111,17 @@ def constructFilename (c : Cfg) (caller tName : Text) (standalone : Bool) : Text
       if standalone then replaceByte tName slash Generated.saReplaceNew
       else trimSuffix base (fpExt base)
     else c.filename
-  let filename := if standalone then filename ++ Generated.saSuffix else filename
-  filename ++ Generated.snapsExt ++ c.extension
+  if standalone then escapeFormat filename ++ Generated.saSuffix ++ Generated.snapsExt ++ escapeFormat c.extension
+  else filename ++ Generated.snapsExt ++ c.extension
 
-/-- `snapshotPath` (non-trimpath build): absolute path and the path relative to the caller's directory -/
+/-- `snapshotPath` (non-trimpath build): absolute path and the path relative to the caller's
+    directory; for a standalone snapshot both are format strings (directory parts escaped) -/
 def snapshotPath (c : Cfg) (caller tName : Text) (standalone : Bool) : Text × Option Text :=
   let dir := if fpIsAbs c.snapsDir then c.snapsDir else fpJoin [fpDir caller, c.snapsDir]
+  let base := fpDir caller
+  let dir := if standalone then escapeFormat dir else dir
+  let base := if standalone then escapeFormat base else base
   let p := fpJoin [dir, constructFilename c caller tName standalone]
-  (p, fpRel (fpDir caller) p)
+  (p, fpRel base p)
 
 end GoSnaps
